@@ -29,8 +29,8 @@ def main():
     jobs = mod.jobs(a.tier, seed)
     if only:
         jobs = [j for j in jobs if only in j[0]]
-    qt = getattr(mod, "QTIMEOUT", {"quick": 120, "thorough": 900})[a.tier]
-    jt = getattr(mod, "JOBTIMEOUT", {"quick": 600, "thorough": 3000})[a.tier]
+    qt = getattr(mod, "QTIMEOUT", {"quick": 120, "thorough": 600})[a.tier]
+    jt = getattr(mod, "JOBTIMEOUT", {"quick": 600, "thorough": 1800})[a.tier]
     results = core.run_jobs(a.prop, a.tier, seed, jobs, workers=a.workers, qtimeout=qt, job_timeout=jt)
     rc = core.finish(a.prop, a.tier, seed, results, t0, mod.LEVEL_TEXT, getattr(mod, "ASSUMPTIONS", ()), technique=getattr(mod, "TECHNIQUE", ""))
     sys.exit(rc)
